@@ -7,6 +7,7 @@ of integer images to float (`img_as(float)`) and the float32 arithmetic of skima
 are outside the model and observed by the oracle.
 -/
 import DarsiaProofs.Pipeline
+import DarsiaProofs.Persist
 namespace Darsia.C13
 open Darsia Darsia.Pipeline
 
@@ -178,6 +179,39 @@ theorem scalar_kind_rule (c : Config) (k : Kind) (base : Option Arr) (extras : L
     (r.out.ndim + 1 = probe.ndim → r.kind = .scalarImage) ∧ (r.out.ndim + 1 ≠ probe.ndim → r.kind = k) := by
   simp only [call, resultKind]
   constructor <;> intro h <;> simp [h]
+
+/-- class of the image object the analysis returns, from the pipeline's kind rule -/
+def clsOfKind : Kind → Persist.Cls
+  | .image => .image | .scalarImage => .scalarImage | .opticalImage => .opticalImage
+
+/-- **Result metadata** (`metadata = img.metadata(); ScalarImage(concentration, **metadata)` resp.
+`type(img)(concentration, **metadata)`, constructors as modelled in `DarsiaModel.Persist`): for a probe of any class
+satisfying the constructor invariant, in every state of the analysis object, the returned image — of the class the
+kind rule yields on the final array — carries the probe's physical metadata (space_dim, indexing, dimensions, origin,
+series, date, reference_date, time, name) key by key; its `scalar` flag is `True` when the signal was reduced to one
+channel (a `color_space` entry of the probe is then dropped), otherwise all metadata keys of the probe's class,
+`scalar` and `color_space` included, are the probe's. Parametric in the key table (`KeysOK`, discharged for the
+generated table in C18). -/
+theorem result_meta {V : Type} (S : Persist.Sem V) (ok : S.OK) (keys : Persist.Cls → List Persist.Key)
+    (hk : Persist.KeysOK keys) (c : Config) (k : Kind) (st : AState) (probe : Arr) (a : Persist.Key → V)
+    (inv : Persist.Inv S (clsOfKind k) a) :
+    let res := callSt c k st probe
+    let md := Persist.metadataOf keys (clsOfKind k) a
+    (res.kind = .scalarImage →
+      (∀ key ∈ Persist.baseKeys, key ≠ .scalar → Persist.construct S .scalarImage md key = a key) ∧
+      Persist.construct S .scalarImage md .scalar = S.tru) ∧
+    (res.kind = k → ∀ key ∈ keys (clsOfKind k), Persist.construct S (clsOfKind k) md key = a key) := by
+  have hc : clsOfKind k ∈ Persist.Cls.all := by cases k <;> simp [clsOfKind, Persist.Cls.all]
+  exact ⟨fun _ => Persist.scalar_from_any S ok keys hk hc a inv,
+    fun _ => Persist.same_class_from_metadata S ok keys hk hc a inv⟩
+
+/-- and the kind is one of the two: `ScalarImage` or the probe's own class -/
+theorem result_kind_cases (c : Config) (k : Kind) (st : AState) (probe : Arr) :
+    (callSt c k st probe).kind = .scalarImage ∨ (callSt c k st probe).kind = k := by
+  simp only [callSt, resultKind]
+  split_ifs
+  · exact Or.inl rfl
+  · exact Or.inr rfl
 
 /-- in particular: colour probe + channel reduction ↦ scalar image; no reduction ↦ class of the probe -/
 theorem kind_examples (opt : DiffOpt) (k : Kind) (base probe : Arr) (hp : probe.scalar = false) (j : Nat) :
